@@ -87,7 +87,7 @@ func ProfileHeaders(avoid map[string]string) *Profile {
 // ProfileErrors: rules (top-level and nested), headers, custom *Error messages.
 func ProfileErrors(avoid map[string]string) *Profile {
 	return &Profile{Name: "errors", MaxDataMessages: 2, MaxFields: 4, Maps: true, Optionals: true, Repeateds: true, Enums: true, MessageFields: true,
-		MaxServices: 1, MaxMethods: 3, Transport: true, BasePaths: true, Headers: true, Rules: true, ErrorMessages: true, Avoid: avoid}
+		MaxServices: 1, MaxMethods: 3, Transport: true, BasePaths: true, Headers: true, Rules: true, MessageRules: true, ErrorMessages: true, Avoid: avoid}
 }
 
 // ProfileConcurrency: several services and methods with distinct header requirements.
@@ -120,6 +120,15 @@ func ProfileContract(avoid map[string]string) *Profile {
 		Optionals: true, Repeateds: true, Enums: true, Timestamps: true, MessageFields: true,
 		MaxServices: 2, MaxMethods: 3, Transport: true, BasePaths: true, Headers: true, QueryOnBody: true,
 		Stratified: true, Features: Features(AllFeatures...), AnnotatedNested: true, AnnotateAnyCard: true, MultiWordChild: true, ContractStrict: true, WrapperSiblings: true, ModelsLayout: true, Avoid: avoid}
+}
+
+// ProfileContractRules is ProfileContract with buf.validate rules on request messages (field- and
+// message-level): the 400 a refused request gets is a published response like any other.
+func ProfileContractRules(avoid map[string]string) *Profile {
+	p := ProfileContract(avoid)
+	p.Name = "contract-rules"
+	p.Rules, p.MessageRules = true, true
+	return p
 }
 
 // ProfileInterop: cross-language calls (TypeScript <-> Go).
